@@ -75,6 +75,13 @@ class Shape:
         return s
 
 
+def c02_flatten(shapes):
+    for s_ in shapes:
+        yield s_
+        if s_.sub is not None:
+            yield from c02_flatten(s_.sub)
+
+
 def build_proof(shapes):
     prf = Proof()
     prf.items = [s.build() for s in shapes]
@@ -397,6 +404,28 @@ def run_check(tier, seed):
                           dict(proof=descr, final=sstr(th), oracle='Falsify.falsify'), key='C02:invalid-final')
     run.cov['search'] = dict(oracle='positional citation check + gap accounting + finite-model validity of gap-free results',
                              accepted=sum(1 for v in results if v[0] == 'accept'), sequents_evaluated=len(fexprs))
+
+    # ---- ids outside the model (the model's ids are natural numbers): a negative number is never a
+    #      line number; Python would index from the end.  Direct search, implementation only.
+    neg_cases = [([Shape((0,), 'substitution', Inst(), [(-1,)], Thm(FALSE)), Shape((1,), 'substitution', Inst(), [(0,)], Thm(FALSE))], 'corpus:circular-by-negative-id')]
+    for _ in range(60 if tier == 'quick' else 600):
+        sh, _ = valid_proof(r)
+        flat = [x for x in c02_flatten(sh) if x.prevs]
+        if not flat:
+            continue
+        x = r.choice(flat)
+        k = r.randrange(len(x.prevs))
+        p_old = x.prevs[k]
+        x.prevs[k] = r.choice([(-1,), (-2,), p_old[:-1] + (-1,), p_old[:-1] + (p_old[-1] - len(sh) - 1,)])
+        neg_cases.append((sh, 'negative-citation'))
+    for shapes, origin in neg_cases:
+        (verdict, th, gaps, prf), err = run_impl(shapes, r.random() < 0.5)
+        run.stat('neg-id:' + verdict)
+        if verdict == 'accept':
+            descr = ' | '.join(s_.show() for s_ in shapes)
+            run.violation('property', 'proof citing a negative line number is accepted (%s): %s' % (origin, descr[:300]),
+                          dict(proof=descr, final=sstr(th), reproduce='theory.check_proof(<proof>)'), key='C02:negative-id')
+        run.count(('neg', origin, tuple(s_.show() for s_ in shapes)), nontrivial=True)
 
     # ---- checked_extend
     ext_cases = []
